@@ -53,6 +53,11 @@ def cases(chk):
     ]
     for h in corpus:
         yield "history", {"events": h}
+    # a server request (ping) carrying the id of an upload that is still unanswered, then the connection is lost: the upload stays unconfirmed
+    for h in (["connect", "authed", "serverIqSameId:0", "disconnected", "connect", "authed", "uploadResult:0", "disconnected", "connect", "authed"],
+              ["connect", "authed", "serverIqSameId:0", "restart", "connect", "authed", "consume:0", "uploadResult:0"],
+              ["connect", "authed", "uploadResult:0", "serverAsksKeys", "serverIqSameId:0", "uploadError:0", "disconnected", "connect", "authed"]):
+        yield "history", {"events": h}
     # the application's logging configuration (per-module levels) is its own business: the same histories with the library's loggers silenced /
     # made verbose
     for i, h in enumerate(corpus):
@@ -74,7 +79,7 @@ def cases(chk):
         for _c in range(r.randint(2, 4)):
             evs += ["connect", "authed"]
             for _i in range(r.randint(0, 4)):
-                e = r.choice(["consume", "consume", "uploadResult", "uploadError", "serverAsksKeys"])
+                e = r.choice(["consume", "consume", "uploadResult", "uploadError", "serverAsksKeys", "serverIqSameId"])
                 evs.append(e + (":%d" % r.randrange(6) if e != "serverAsksKeys" else ""))
             evs.append(r.choice(["disconnected", "restart", "disconnected"]))
         yield "history", {"events": evs}
@@ -238,6 +243,14 @@ def _run_case(chk, stream, case):
                         w.near.toUpper(N("iq", {"id": up["id"], "type": "result", "from": "s.whatsapp.net"}))
                     else:
                         w.near.toUpper(N("iq", {"id": up["id"], "type": "error", "from": "s.whatsapp.net"}, [N("error", {"code": "500", "text": "x"})]))
+                elif kind == "serverIqSameId":
+                    # a request of the SERVER's own (a ping) that happens to carry the id of an upload still waiting for its answer (both sides
+                    # number their stanzas from 1): it is not the answer — nothing is confirmed by it (no model event: a ping is answered, that is all)
+                    if not w.inflight or getattr(w.control, "manager", None) is None or not authed_now:
+                        continue
+                    up = w.uploads[w.inflight[int(arg) % len(w.inflight)]]
+                    chk.hit("ev:serverIqSameId")
+                    w.near.toUpper(N("iq", {"id": up["id"], "type": "get", "xmlns": "urn:xmpp:ping", "from": "s.whatsapp.net"}))
                 elif kind == "disconnected":
                     mev = "disconnected"
                     w.stack.emitEvent(YowLayerEvent(YowNetworkLayer.EVENT_STATE_DISCONNECTED))
